@@ -259,7 +259,14 @@ func (x *Exec) schedule(from *Thread) {
 		if fromEn {
 			en = append(en, from)
 		}
-		for _, t := range x.threads {
+		// round-robin order after the running thread
+		n := len(x.threads)
+		start := 0
+		if from != nil {
+			start = from.ID + 1
+		}
+		for k := 0; k < n; k++ {
+			t := x.threads[(start+k)%n]
 			if t != from && t.isEnabled() {
 				en = append(en, t)
 			}
@@ -605,7 +612,13 @@ type Violation struct {
 // Explorer is the deviation-bounded DFS.
 type Explorer struct {
 	Body      func(x *Exec)
-	PBound    int // preemption bound
+	// PBound bounds scheduling deviations: a preemption (switching away from a thread that could
+	// continue) costs 1; at a forced switch (running thread blocked or finished) the default
+	// successor is the next enabled thread in round-robin order and any other choice costs 1
+	// (delay bounding). With FreeForced the classic CHESS model is used instead (all choices at
+	// forced switches are free).
+	FreeForced bool
+	PBound    int // scheduling deviation bound
 	EBound    int // environment deviation bound
 	Horizon   int
 	MaxExec   int           // 0 = unlimited
@@ -704,7 +717,7 @@ func (e *Explorer) exploreChildren(x *Exec, prefix []int, root bool) {
 			for alt := 1; alt < c.N; alt++ {
 				if c.Kind == Sched {
 					cost := pre
-					if c.RunEn {
+					if c.RunEn || !e.FreeForced {
 						cost++
 					}
 					if cost > e.PBound {
@@ -734,7 +747,7 @@ func (e *Explorer) exploreChildren(x *Exec, prefix []int, root bool) {
 		}
 		if c.Pick > 0 {
 			if c.Kind == Sched {
-				if c.RunEn {
+				if c.RunEn || !e.FreeForced {
 					pre++
 				}
 			} else {
